@@ -1,5 +1,5 @@
 (* driver for m_dataclass
-   dec cy0|cy1|py <opts   (cy0 = the code as it is, cy1 = repaired hash-is-None test)
+   dec cyHM|py   (H = 1: repaired hash-is-None test, M = 1: repaired __match_args__ loop; cy00 = the code as it is)
              <opts: 8 x 0/1 init repr eq order unsafe_hash frozen match_args kw_only>
              <user: init repr eq hash(0 missing,1 None,2 def) match_args post_init>
              <fields: name:d:i:r:c:h:k:v separated by commas, or ->   d in n/v/f, h k in n/t/f
@@ -47,8 +47,9 @@ let s_ob = function None -> "E" | Some true -> "T" | Some false -> "F"
 let handle = function
   | ["dec"; who; o; u; fs] ->
       let fl = List.map parse_field (split_on ',' fs) in
-      let f = if who = "cy0" then cy_decide false else if who = "cy1" then cy_decide true
-              else if who = "py" then py_decide else failwith "who" in
+      let f = if who = "py" then py_decide
+              else if String.length who = 4 && String.sub who 0 2 = "cy" then cy_decide (who.[2] = '1') (who.[3] = '1')
+              else failwith "who" in
       s_dec (f (parse_opts o) (parse_user u) fl)
   | ["ord"; c; ps] ->
       let l = pairs oz ps in
